@@ -21,7 +21,8 @@ Record zseq := { q_off : N; q_ll : N; q_ml : N }.           (* ZSTD_Sequence (re
 Definition is_delim (s : zseq) : bool := (q_off s =? 0) && (q_ml s =? 0).
 Definition delim (ll : N) : zseq := {| q_off := 0; q_ll := ll; q_ml := 0 |}.
 
-Record sseq := { t_ll : N; t_ml : N; t_ob : N }.            (* one seqStore entry: litLength, matchLength, offBase *)
+Record sseq := { t_ll : N; t_ml : N; t_ob : N;              (* one seqStore entry: litLength, matchLength, offBase *)
+                 t_raw : N }.                               (* ghost: the raw offset the entry was made from *)
 Definition reps := (N * N * N)%type.                        (* rep[0], rep[1], rep[2] *)
 Definition rep_start : reps := (1, 4, 8).
 
@@ -40,8 +41,11 @@ Record scfg := {
   g_producer : bool;   (* ZSTD_hasExtSeqProd *)
   g_dict : N;          (* dictSize as computed at the top of the copiers *)
   g_maxNbSeq : N;      (* seqStore.maxNbSeq *)
-  g_vfix : bool }.     (* false: the code as found (finding F4: bound computed from the position AFTER the match);
+  g_vfix : bool;       (* false: the code as found (finding F4: bound computed from the position AFTER the match);
                           true : the repaired rule (bound computed from the position at the match start) *)
+  g_vraw : bool }.     (* false: the code as found (the offset test is applied to offBase AFTER repcode substitution, so an
+                          offset equal to a repeat offset - e.g. the initial 1/4/8 - is never tested);
+                          true : the repaired rule (the raw offset is tested) *)
 
 (* ---------- ZSTD_validateSequence ---------- *)
 Definition match_len_lower (cfg : scfg) : N := if (g_minMatch cfg =? 3) || g_producer cfg then 3 else 4.
@@ -62,11 +66,14 @@ Definition finalize_offbase (raw : N) (rep : reps) (ll0 : bool) : N :=
   else if ll0 && (raw =? sub32 r0 1) then 3
   else add32 raw 3.
 
+(* repCode = OFFBASE_TO_REPCODE(offBase) - 1 + ll0, in U32 *)
+Definition rep_index (offBase : N) (ll0 : bool) : N := sub32 (offBase + (if ll0 then 1 else 0)) 1.
+
 Definition update_rep (rep : reps) (offBase : N) (ll0 : bool) : reps :=
   let '(r0, r1, r2) := rep in
   if 3 <? offBase then (offBase - 3, r0, r1)
   else
-    let rc := offBase - 1 + (if ll0 then 1 else 0) in
+    let rc := rep_index offBase ll0 in
     if rc =? 0 then rep
     else
       let cur := if rc =? 3 then sub32 r0 1 else if rc =? 1 then r1 else r2 in
@@ -88,12 +95,15 @@ Record cst := {           (* running state of a copier inside one block *)
 
 Definition store_seq (cfg : scfg) (ers : bool) (bsz : N) (raw ll ml : N) (st : cst) : outc cst :=
   let '(ob, rep') := code_offset ers raw ll (k_rep st) in
+  if ers && (ob =? 0) && negb (ll =? 0) then Oob 9   (* raw offset 2^32-3: OFFSET_TO_OFFBASE wraps to 0, ZSTD_updateRep reads rep[0xFFFFFFFF] *)
+  else
   let pos' := if g_validate cfg then k_pos st + add32 ll ml else k_pos st in
-  if g_validate cfg && negb (validate_sequence cfg ob ml (validate_pos cfg pos' ml)) then Invalid 1
+  let vcode := if g_vraw cfg then raw + 3 else ob in
+  if g_validate cfg && negb (validate_sequence cfg vcode ml (validate_pos cfg pos' ml)) then Invalid 1
   else if g_maxNbSeq cfg <=? k_cnt st then Invalid 2
   else if bsz <? k_ip st + ll then Oob 3          (* ZSTD_storeSeq copies litLength bytes starting at ip; limit is iend *)
   else Done {| k_rep := rep'; k_pos := pos'; k_ip := k_ip st + add32 ml ll; k_cnt := k_cnt st;
-               k_acc := {| t_ll := ll; t_ml := ml; t_ob := ob |} :: k_acc st |}.
+               k_acc := {| t_ll := ll; t_ml := ml; t_ob := ob; t_raw := raw |} :: k_acc st |}.
 
 Definition bump (st : cst) : cst :=
   {| k_rep := k_rep st; k_pos := k_pos st; k_ip := k_ip st; k_cnt := k_cnt st + 1; k_acc := k_acc st |}.
@@ -216,8 +226,8 @@ Definition TINY : N := 7. (* MIN_CBLOCK_SIZE + ZSTD_blockHeaderSize + 1 + 1 *)
    repcodes are confirmed) or as raw / RLE (false: the history stays).  That choice belongs to the
    entropy coder, which is not modelled; all statements quantify over every such list. *)
 Fixpoint cs_loop (fuel : nat) (cfg : scfg) (delims ers : bool) (bsMax : N) (S : list zseq) (pis pos remaining : N)
-         (rep : reps) (dec : list bool) (acc : list blk) : outc (list blk) :=
-  if remaining =? 0 then Done (rev' acc)
+         (rep : reps) (dec : list bool) : outc (list blk) :=
+  if remaining =? 0 then Done []
   else match fuel with
   | O => Invalid 98                                              (* no progress: C loops until dst is exhausted -> error *)
   | S f =>
@@ -229,19 +239,21 @@ Fixpoint cs_loop (fuel : nat) (cfg : scfg) (delims ers : bool) (bsMax : N) (S : 
     let '(S', pis', br) := c in
     let bs' := bs - r_adj br in
     if bs' <? TINY then
-      cs_loop f cfg delims ers bsMax S' pis' (r_pos br) (remaining - bs') rep dec
-              ({| b_size := bs'; b_seqs := r_seqs br; b_lastLL := r_lastLL br; b_rep_in := rep; b_tiny := true; b_last := last |} :: acc)
+      olet rest <- cs_loop f cfg delims ers bsMax S' pis' (r_pos br) (remaining - bs') rep dec;
+      Done ({| b_size := bs'; b_seqs := r_seqs br; b_lastLL := r_lastLL br; b_rep_in := rep; b_tiny := true; b_last := last |} :: rest)
     else
       let commit := match dec with [] => true | d :: _ => d end in
       let rep' := if commit then r_rep br else rep in
       let b := {| b_size := bs'; b_seqs := r_seqs br; b_lastLL := r_lastLL br; b_rep_in := rep; b_tiny := false; b_last := last |} in
-      if last then Done (rev' (b :: acc))
-      else cs_loop f cfg delims ers bsMax S' pis' (r_pos br) (remaining - bs') rep' (tl dec) (b :: acc)
+      if last then Done [b]
+      else
+        olet rest <- cs_loop f cfg delims ers bsMax S' pis' (r_pos br) (remaining - bs') rep' (tl dec);
+        Done (b :: rest)
   end.
 
 Definition compress_sequences (cfg : scfg) (delims ers : bool) (bsMax srcSize : N) (S : list zseq) (rep : reps) (dec : list bool)
   : outc (list blk) :=
-  cs_loop (length S + N.to_nat srcSize + 2) cfg delims ers bsMax S 0 0 srcSize rep dec [].
+  cs_loop (length S + N.to_nat srcSize + 2) cfg delims ers bsMax S 0 0 srcSize rep dec.
 
 (* ---------- ZSTD_mergeBlockDelimiters ---------- *)
 Fixpoint merge_delims (S : list zseq) (carry : N) : list zseq :=
@@ -254,8 +266,12 @@ Fixpoint merge_delims (S : list zseq) (carry : N) : list zseq :=
   end.
 
 (* ---------- ZSTD_copyBlockSequences (one block of ZSTD_generateSequences) ---------- *)
+(* seqDef.litLength is a U16: the history update reads the truncated field ("inSeqs[i].litLength == 0"), while the
+   raw offset is computed from the corrected length (outSeqs[i].litLength, after adding 0x10000 for a long length) *)
+Definition ll0_stored (ll : N) : bool := ll mod 65536 =? 0.
 Record gseq := { o_seq : zseq; o_rep : N }.
-Fixpoint copy_block_sequences (stored : list sseq) (rep : reps) : list gseq :=
+(* [fixll] = false: the code as found (truncated field); true: the repaired rule (corrected length) *)
+Fixpoint copy_block_sequences (fixll : bool) (stored : list sseq) (rep : reps) : list gseq :=
   match stored with
   | [] => []
   | t :: r =>
@@ -267,10 +283,10 @@ Fixpoint copy_block_sequences (stored : list sseq) (rep : reps) : list gseq :=
                   else (if ob =? 3 then sub32 r0 1 else if ob =? 1 then r1 else r2))
                else ob - 3 in
     {| o_seq := {| q_off := raw; q_ll := t_ll t; q_ml := t_ml t |}; o_rep := if isrep then ob else 0 |}
-      :: copy_block_sequences r (update_rep rep ob (t_ll t =? 0))
+      :: copy_block_sequences fixll r (update_rep rep ob (if fixll then t_ll t =? 0 else ll0_stored (t_ll t)))
   end.
-Definition generate_block (stored : list sseq) (lastLL : N) (rep : reps) : list gseq :=
-  copy_block_sequences stored rep ++ [{| o_seq := delim lastLL; o_rep := 0 |}].
+Definition generate_block (fixll : bool) (stored : list sseq) (lastLL : N) (rep : reps) : list gseq :=
+  copy_block_sequences fixll stored rep ++ [{| o_seq := delim lastLL; o_rep := 0 |}].
 
 (* ---------- ZSTD_sequenceBound ---------- *)
 Definition sequence_bound (srcSize : N) : N := (srcSize / 3 + 1) + (srcSize / 1024 + 1).
